@@ -151,3 +151,28 @@ prop("C20", explanation="per type with unsafe code: constructors establish the i
      "unsafe precondition; Kani's automatic pointer/unsafe-precondition/overflow checks located in /repo/src are the obligations")
 kani("backends::cursor_buf_mut_then_read", ["C20"], fns=[B + "Cursor::buf_mut", B + "<Cursor as ReadWords<Stack>>::read"],
      text="safe sequence new_at_write_end(vec).buf_mut().truncate(k); stack read() must not index out of bounds")
+
+# =====================================================================================
+# C16  Bit-level stack and queue coders  (+ their guards for C08, their size queries for C18)
+# =====================================================================================
+prop("C16", explanation="ghost bit sequence b[0..n], n <= 10 (crosses the u8 word boundary, reaches the full-word and fresh-word "
+     "representations); every operation checked against push/pop/enqueue/dequeue on the ghost sequence and against the LSB-first packing spec")
+S = "symbol/mod.rs::"
+kani("bits::stack_write_read", ["C16", "C18"], fns=[S + "StackCoder::write_bit", S + "StackCoder::read_bit", S + "SymbolCoder::len", S + "SymbolCoder::is_empty"],
+     text="after any n<=10 writes: len()==n; write x; read == x; read == b[n-1] (None, sticky, on empty)")
+kani("bits::stack_export_import", ["C16"], fns=[S + "StackCoder::into_compressed", S + "StackCoder::from_compressed"],
+     text="into_compressed() == LSB-first packing + end marker; from_compressed(those words) holds the same n bits")
+kani("bits::stack_import_any", ["C16", "C18"], fns=[S + "StackCoder::from_compressed"],
+     text="for any last word w != 0: content = bits of w below its highest set bit (zero word refused)")
+kani("bits::queue_roundtrip", ["C16", "C18"], fns=[S + "QueueEncoder::write_bit", S + "QueueEncoder::into_compressed", S + "QueueDecoder::read_bit", S + "QueueDecoder::maybe_exhausted"],
+     text="export == LSB-first packing zero padded; decoder yields the bits in order, then padding zeros, then None")
+kani("bits::stack_guard", ["C08"], fns=[S + "StackCoderGuard::new", S + "StackCoderGuard::drop"], text="guard view == export; after drop, write+export == uninspected twin")
+kani("bits::queue_guard", ["C08"], fns=[S + "QueueEncoderGuard::new", S + "QueueEncoderGuard::drop"], text="guard view == export; after drop, write+export == uninspected twin")
+kani("bits::exp_golomb_u8", ["C16"], tier="thorough", timeout=1200, fns=["symbol/exp_golomb.rs::ExpGolomb::{encode_symbol_prefix,encode_symbol_suffix,decode_symbol}"],
+     text="for every u8 value incl. MAX: prefix bits == textbook codeword; queue and stack round trips return the value")
+kani("bits::exp_golomb_u16", ["C16"], tier="thorough", timeout=3000, fns=["symbol/exp_golomb.rs::ExpGolomb<u16>"], text="same for every u16 value")
+claim("C16", "Every bit-coder operation against the ghost bit sequence for all contents of <= 10 bits over u8 words (covers all "
+      "representations: empty, partial, exactly full, second word); export against the packing spec; Exp-Golomb for every u8/u16 value (thorough).",
+      "Kani bit-precise on the real code; word type u8 (the code is generic in Word: wider words rely on genericity / Verus unit); sequences longer than 10 bits by induction on the per-step contract",
+      "function contracts against a ghost sequence (Kani)")
+NOT_APPLICABLE.pop("C16", None)
